@@ -32,6 +32,17 @@ def fixture_src(rnd, name, params=(), scope=None, autouse=False, alias=None, bod
         dec = "@" + style.replace("()", "") + "(" + ", ".join(kws) + ")"
     sig = ", ".join(params)
     rets = (" -> " + ret) if ret else ""
+    stmt = ("yield " + (params[0] if params else "1")) if gen else (body or ("return " + (params[0] if params else "1")))
+    if not doc and "\n" not in stmt and rnd.random() < 0.15:
+        # the whole function on its last line: a one-liner, or a multi-line signature whose last
+        # parameter shares its line with the body
+        if multiline and params:
+            lines = [indent + dec, indent + "%sdef %s(" % ("async " if asyncdef else "", name)]
+            lines += [indent + "    " + p + "," for p in params[:-1]]
+            lines.append(indent + "    " + params[-1] + ")%s: %s" % (rets, stmt))
+        else:
+            lines = [indent + dec, indent + "%sdef %s(%s)%s: %s" % ("async " if asyncdef else "", name, sig, rets, stmt)]
+        return "\n".join(lines) + "\n"
     if multiline and params:
         lines = [indent + dec, indent + "%sdef %s(" % ("async " if asyncdef else "", name)]
         lines += [indent + "    " + p + "," for p in params]
